@@ -310,7 +310,7 @@ func main() {
 			}
 		}
 	}
-	// Faulted reads: one reader transaction (its snapshot is reused by all its reads) over committed data
+	// Explored reader: a 3-key writer dead at any seam event, locks expired, a batch-get reader as an explored actor (P=1: the answers to the concurrent status checks of its resolver in any order; quick: async commit over 3 regions): the dead transaction is driven to the outcome the protocol fixes and the reader returns the MVCC truth. Faulted reads: one reader transaction (its snapshot is reused by all its reads) over committed data
 	// in 2-3 regions, with deviations at its read RPCs - a non-retriable store answer (key error "abort")
 	// for one region's part of a read, a lost request, NotLeader, the store unreachable for that command
 	// from here on - and one preemption, so that the parts of a fanned-out batch get answer in either
@@ -387,6 +387,51 @@ func main() {
 				}})
 			}
 		}
+	}
+	// Reader as an explored actor (common.ExploredRecovery, shared with C02): the writer dies at an
+	// enumerated seam event, its locks expire, and a reader arrives whose resolver's concurrent status
+	// checks (CheckTxnStatus, CheckSecondaryLocks per region) are answered in any order within one
+	// preemption. "Locks of finished transactions are resolved to their true outcome": the outcome the
+	// reader drives the dead transaction to must be the one the protocol fixes (all keys or none, in line
+	// with what the writer was told), and what the reader returns must be the MVCC truth at its timestamp.
+	for _, er := range common.ExploredRecovery(run.Thorough(), []string{"a", "b", "c"}) {
+		if !run.Thorough() && !(strings.Contains(er.Name, "async") && strings.Contains(er.Name, "split@b,c")) {
+			continue
+		}
+		er := er
+		name := er.Name + "/c05"
+		mk := func() *txnh.TxnScenario {
+			sc := er.Make()
+			sc.ID = name
+			sc.CheckFn = func(s *txnh.TxnScenario, x *sched.Exec) []sched.Violation {
+				v := s.H.Txns[0]
+				if !s.W.Crashed(0) && (v.Outcome == "open" || v.Outcome == "unstarted") {
+					return nil
+				}
+				vs, _, t := common.AuditVictimR(s, x, 0, "", "reader-gc")
+				var out []sched.Violation
+				for _, sv := range vs {
+					sv.Key = "lock-resolved-to-wrong-outcome:" + sv.Key
+					out = append(out, sv)
+				}
+				if t != nil {
+					t.Splits = er.Splits
+					for _, sv := range txnh.AuditSI(s.H, t) {
+						sv.Key = "explored-reader:" + sv.Key
+						out = append(out, sv)
+					}
+				}
+				return out
+			}
+			return sc
+		}
+		specs[name] = mk
+		jobs = append(jobs, sched.Job{Name: name, Run: func(dl time.Time) sched.Report {
+			sc := mk()
+			x := &sched.Explorer{Sc: sc, B: sched.Bounds{P: 1, F: 2, Horizon: 500, EarlyTimers: false, Deadline: dl}}
+			x.Outcome = func(e *sched.Exec) string { return sc.H.Txns[0].Outcome + fmt.Sprint(len(sc.W.Log())) }
+			return x.Explore(false)
+		}})
 	}
 	if common.HandleReplay(run, jobs, func(name string) sched.Scenario {
 		if mk, ok := specs[name]; ok {
